@@ -579,10 +579,10 @@ def gen_cases(rng, pools, core, counts, ninputs=3):
                 feats |= {'select'}
             g = TGen(rng, feats, None if pool == 'core' else pool)
             if pool == 'core':
-                prog = g.program(nstmts=rng.randint(4, 8), depth=2)
+                prog = g.program(nstmts=rng.randint(3, 7), depth=2)
             else:
                 prog = g.program(nstmts=rng.randint(2, 4), depth=2 if pool in ('step', 'lvafter', 'boundmod', 'exitcycle', 'lb', 'select', 'selneg') else 1)
-            cases.append({'prog': prog, 'inputs': g.inputs(prog, ninputs), 'pool': pool})
+            cases.append({'prog': prog, 'inputs': g.inputs(prog, ninputs if pool == 'core' else 2), 'pool': pool})
     return cases
 
 
